@@ -22,6 +22,9 @@ class CallMixin:
         return self.get_attr(v, n.attr, st)
 
     def get_attr(self, v, attr, st):
+        import enum as _enum
+        if isinstance(v, type) and issubclass(v, _enum.Enum):
+            return getattr(v, attr)
         if isinstance(v, SliceV):
             if attr in ("start", "stop", "step"):
                 return getattr(v, attr)
@@ -33,6 +36,8 @@ class CallMixin:
             key = f"{v.__name__.split('.')[-1]}.{attr}"
             if "ext:" + key in self.registry:
                 return ContractFn(self.registry["ext:" + key])
+            if key in CONCRETE_EXTERNALS:
+                return ConcreteFn(x)
             if isinstance(x, pytypes.ModuleType):
                 return x
             if isinstance(x, type) and issubclass(x, BaseException):
@@ -146,6 +151,10 @@ class CallMixin:
         return self.call(f, args, kwargs, st, n)
 
     def call(self, f, args, kwargs, st, node=None):
+        if isinstance(f, ConcreteFn):
+            if any(isinstance(a, (Sym, Ref)) for a in args) or kwargs:
+                raise Unsupported("external function called with symbolic arguments")
+            return f.fn(*args)
         if isinstance(f, Builtin):
             return self.call_builtin(f.name, args, kwargs, st, node)
         if isinstance(f, ClassV):
@@ -616,6 +625,11 @@ class CallMixin:
                     raise PyRaise("UnicodeDecodeError")
         if name == "join":
             return self.fold_call("join", [args[0], recv], st)
+        if name == "decode" and isinstance(recv, Sym) and recv.tag == "bytes" and len(args) == 1 and isinstance(args[0], str):
+            c = self.registry.get("ext:bytes.decode")
+            if c is None:
+                raise Unsupported("bytes.decode without a contract")
+            return self.call_contract(c, [recv, args[0]], {}, st)
         if name == "format" and isinstance(recv, str) and not kwargs and recv.count("{}") == len(args) \
                 and "{" not in recv.replace("{}", "") and "}" not in recv.replace("{}", ""):
             parts = recv.split("{}")
@@ -744,6 +758,13 @@ class CallMixin:
         return [(st, oc)]
 
 
+class ConcreteFn:
+    """a whitelisted pure external function, evaluated by calling it (only ever on concrete arguments)"""
+    def __init__(self, fn):
+        self.fn = fn
+
+
+CONCRETE_EXTERNALS = {"codecs.getdecoder"}
 _TABLE_CACHE = {}
 _INLINE_CACHE = {}
 HASHSTR = z3.Function("HASHSTR", T.SI, T.I)
